@@ -79,6 +79,10 @@ func (d *Decoder) unmarshal(val reflect.Value, tagType byte) error {
 	if u != nil {
 		return u.UnmarshalNBT(tagType, d.r)
 	}
+	if val.Kind() == reflect.Interface && val.NumMethod() > 0 {
+		// only the empty interface can hold the values a decoder produces
+		return errors.New("cannot decode NBT into a value of interface type " + val.Type().String())
+	}
 	if tagType == TagList || tagType == TagCompound {
 		if err := d.enter(); err != nil {
 			return err
